@@ -9,7 +9,7 @@ ENTRY = {
                 "ordinary, spring-forward, fall-back and midnight-transition days) at probe instants (half-hour grid, +-1 ns around every wall-clock range edge, local midnight and transition, "
                 "both occurrences of repeated times); every table row is replayed into the real schedule.Weekly (built through UnmarshalJSON/UnmarshalYAML) and a sample through "
                 "PUT /control/blocked_services/update + DNSFilter.ApplyAdditionalFiltering + CheckHost at that virtual time (synctest), global and per-client schedule; "
-                "30324 serialisation vectors (whole-ms and sub-millisecond bounds down to 1 ns) go through both decoders/encoders (verdict + round trips); every row is put to 2 long-lived Weekly objects (ascending, then descending/shuffled instant order) with the instant given in 5 representations (UTC, schedule zone, +05:45, Local, 12 h away); every document is decoded into fresh and into already populated receivers. ScheduleHolder.tla models the schedule in effect under a history of accepted/rejected updates (all or nothing; 7612 edges, bad day at every weekday position with valid/absent days around it); one edge-covering walk is driven through the real PUT blocked_services/update and GET blocked_services/get handlers of one long-lived DNSFilter, comparing reply, read-back and Contains at 35 probes after every step. Random triples, random serialised schedules and random update histories recorded from the real code are judged by TraceSchedule.tla / TraceScheduleHolder.tla.",
+                "30324 serialisation vectors (whole-ms and sub-millisecond bounds down to 1 ns) go through both decoders/encoders (verdict + round trips); every row is put to 2 long-lived Weekly objects (ascending, then descending/shuffled instant order) with the instant given in 5 representations (UTC, schedule zone, +05:45, Local, 12 h away); every document is decoded into fresh and into already populated receivers. ScheduleHolder.tla models the schedules in effect in two independent holders under a history of requests (update, update with null schedule, restart from a YAML/JSON configuration decoded on top of the default EmptyWeekly(); all or nothing; 8470 edges, bad day at every weekday position with valid/absent days around it; action property: a request to one holder never changes the other); one edge-covering walk is driven through the real PUT blocked_services/update and GET blocked_services/get handlers of two DNSFilters, comparing reply, read-back and Contains at 35 probes of both holders after every step. Random triples, random serialised schedules and random update histories recorded from the real code are judged by TraceSchedule.tla / TraceScheduleHolder.tla.",
         "design_ref": "DESIGN.md section 4 C18",
         "note": "Trusted: TLC; the host tz database as read by Go's time package (tables via Time.ZoneBounds, cross-checked per instant against Time.In(loc).Zone/Clock/Weekday); "
                 "conc()/projection of the two zz_verif_c18_test.go files. Instants 2000-01-05..2037-12-20. Instants are classes, not every nanosecond. "
